@@ -300,7 +300,7 @@ func (l *Lexer) readString() string {
 	for l.ch != 0 {
 		l.readChar()
 		// check for quote escapes
-		if l.ch == '\\' && l.peekChar() == '"' {
+		for l.ch == '\\' && l.peekChar() == '"' {
 			l.readChar()
 			l.readChar()
 		}
